@@ -26,7 +26,7 @@ THEOREMS = ['C16.translation_succeeds', 'C16.translation_accepted', 'C16.layout_
             'C16.translation_text_sound', 'C16.exDB_accepted', 'C16.ExampleCanon.db_text_accepted', 'C16.ExampleCanon.db_text_sound',
             # the specification on databases WITH notations is well formed (Props/C16c.lean, ConvSugar*.lean): FragmentShape + no notation
             # for \\imp / \\app ⇒ dbOfMDb answers, db.wf, coherence of goal / proof / table; then the translation theorems apply
-            'C16.notation_for_imp_rejected', 'C16.spec_of_shape_with_notations', 'C16.spec_wf_of_shape_with_notations',
+            'C16.notation_for_imp_rejected', 'C16.headsPlain_of_shape', 'C16.spec_of_shape_with_notations', 'C16.spec_wf_of_shape_with_notations',
             'C16.spec_coherent_with_notations', 'C16.translation_of_shaped_notation_database', 'C16.translation_notation_example']
 
 
